@@ -319,6 +319,7 @@ def run(ctx):
 
     ctx.borrow("C10", {"C10.R2": "C09.R9"}, "an un-hinted value is written under the first branch validate accepts: a container validator that accepts without consulting every element makes the writer pick a branch the value does not conform to", only=lambda o: any(k in o.get("instance", "") for k in ("_validate_array", "_validate_map", "_validate_record", "_validate_union", "_validate:")))
 
+    ctx.borrow("C17", {"C17.R1": "C09.R11"}, "the branch chosen must be a function of (schema, datum): a writer that edits the caller's datum while choosing (e.g. strips a hint) makes the next write of the same object choose differently", only=lambda o: "union" in o["where"].split(":")[1] if o["where"].count(":") >= 1 else False)
     # ---- R10 the reader options reach every nested read --------------------------------------------------------
     ctx.rule("C09.R10", "every nested read (read_data from read_data and from the readers of the READERS table) is given the caller's own options: the options decide whether a named branch comes back as (name, value)", floor=6)
     rd = p.func("_read_py:read_data")
